@@ -9,16 +9,20 @@ A converter ``conv`` is a tuple (spec, pyfunc|None, regex, weight, canonical_val
 from __future__ import annotations
 
 import re
+import sys
 import uuid as _uuid
 
 UUID_RE = r"[A-Fa-f0-9]{8}-[A-Fa-f0-9]{4}-[A-Fa-f0-9]{4}-[A-Fa-f0-9]{4}-[A-Fa-f0-9]{12}"
+
+INT_MAX_DIGITS = getattr(sys, "get_int_max_str_digits", lambda: 4300)() or 10**6
 
 CONVS = [
     ("string", None, r"[^/]+", 100, ["a", "zz", "12", "1.5", "a b", "ü", "ab", "x1"]),
     ("string(length=2)", None, r"[^/]{2}", 100, ["zz", "12", "ab"]),
     ("string(minlength=2)", None, r"[^/]{2,}", 100, ["zz", "123", "abc"]),
     ("string(minlength=2, maxlength=3)", None, r"[^/]{2,3}", 100, ["zz", "123"]),
-    ("int", int, r"\d+", 50, ["1", "12", "007", "0"]),
+    # an int is a run of digits that int() converts: the interpreter refuses more than sys.get_int_max_str_digits() digits
+    ("int", int, r"\d{1,%d}" % INT_MAX_DIGITS, 50, ["1", "12", "007", "0"]),
     ("int(fixed_digits=2)", int, r"\d{2}", 50, ["12", "07"]),
     ("int(fixed_digits=3)", int, r"\d{3}", 50, ["123", "007"]),
     ("float", float, r"\d+\.\d+", 50, ["1.5", "12.0"]),
